@@ -2065,7 +2065,13 @@ impl<'a> Searcher<'a> {
             // wildcards make a pattern of a literal, not of another column's value (`name = ext`)
             let literal = expr.right.as_ref().is_some_and(|right| right.val.is_some());
 
-            result = match field_value.get_type() {
+            // pattern operators work on the text of any value (`size like '1%'`)
+            let field_type = match op {
+                Op::Rx | Op::NotRx | Op::Like | Op::NotLike => &VariantType::String,
+                _ => field_value.get_type(),
+            };
+
+            result = match field_type {
                 VariantType::String => {
                     let val = value.to_string();
                     match op {
